@@ -2,7 +2,7 @@
 # tools/try_mutant.sh <patch.diff> <property> [tier] : run a check against a scratch copy of /repo with the patch applied
 set -e
 P=$(realpath "$1")
-D=/tmp/mrepo_alt
+D=/tmp/mrepo_try
 rm -rf $D && rsync -a --exclude target --exclude .git /repo/ $D/
 (cd $D && patch -p1 -s < "$P") || { echo "patch failed"; rm -rf $D; exit 3; }
 cd /verif
